@@ -1300,6 +1300,61 @@ def _check_lf_psubs(out, label, sm, rng, inp_params):
     return lf0
 
 
+def _check_history(out, label, sm, rng, expms):
+    """no memory: the transition matrices of a likelihood function depend on the CURRENT values only.  A likelihood function
+    whose first-evaluated edge was very short and whose lengths were then changed must show the same psubs as a fresh one
+    built with the final values (exponentiator objects are cached per rate matrix and reused for every edge / update), and
+    a matrix that was read must not change when other edges are evaluated (no shared output buffers)"""
+    np = _np()
+    base = {e: U.rand_length(rng) for e in U.EDGES}
+    first = dict(base, a=rng.choice([1e-6, 1e-5, 1e-4]), b=rng.choice([1e-4, 0.5]))
+    final = dict(base, a=rng.uniform(0.5, 3.0), b=rng.choice([1e-5, 0.3, 2.0]), c=rng.choice([1e-4, 1.5]))
+    for expm in expms:
+        try:
+            kw = dict(lengths=first)
+            if expm is not None:
+                kw["expm"] = expm
+            lf1, info1 = _draw(sm, label, rng, **kw)
+            raw = {e: lf1.get_psub_for_edge(e).array for e in U.EDGES}  # evaluation order: a first
+            snap = {e: np.array(v, float, copy=True) for e, v in raw.items()}
+            for e in reversed(U.EDGES):
+                lf1.get_psub_for_edge(e)
+            alias = max(float(np.abs(np.asarray(raw[e], float) - snap[e]).max()) for e in U.EDGES)
+            shared = [(e, f) for e in U.EDGES for f in U.EDGES if e < f and np.shares_memory(np.asarray(raw[e]), np.asarray(raw[f]))]
+            with warnings.catch_warnings():
+                warnings.simplefilter("ignore")
+                for e, t in reversed(list(final.items())):  # (a fresh likelihood function sets them in the order a..e)
+                    lf1.set_param_rule("length", edge=e, init=t)
+            hist = {e: np.array(lf1.get_psub_for_edge(e).array, float, copy=True) for e in U.EDGES}
+            kw2 = dict(lengths=final, params=info1["params"])
+            if expm is not None:
+                kw2["expm"] = expm
+            if sm._mprob_model == "monomers":
+                kw2["wordprobs"] = info1["wordprobs"]
+            else:
+                kw2["mprobs"] = info1["mprobs"]
+            lf2, _ = _draw(sm, label, rng, **kw2)
+            fresh = {e: np.array(lf2.get_psub_for_edge(e).array, float, copy=True) for e in reversed(U.EDGES)}
+        except (ArithmeticError, np.linalg.LinAlgError):
+            bump(out, "backend_unavailable", str(expm))
+            continue
+        out["evaluations"] += 1
+        bump(out, "history_checked", str(expm))
+        inp = dict(model=label, params=info1["params"], mprobs=info1.get("mprobs") or info1.get("wordprobs"), backend=str(expm),
+                   first_lengths=first, final_lengths=final)
+        if shared and abs(first[shared[0][0]] - first[shared[0][1]]) > 0:
+            _fail(out, "spec", "the psubs of two edges with different lengths are one and the same array (shared output buffer)",
+                  dict(inp, edges=list(shared[0])), "separate matrices", "shared memory", sig=f"lf-alias:{expm}")
+        if not alias <= 1e-15:
+            _fail(out, "spec", "a psub that was read changed when other edges were evaluated (shared output buffer)", dict(inp, diff=alias), 0.0, alias,
+                  sig=f"lf-alias:{expm}")
+        d = max(float(np.abs(hist[e] - fresh[e]).max()) for e in U.EDGES)
+        if not d <= REL_ATOL:
+            worst = max(U.EDGES, key=lambda e: float(np.abs(hist[e] - fresh[e]).max()))
+            _fail(out, "spec", "psubs after a history of length updates differ from those of a fresh likelihood function with the same values",
+                  dict(inp, edge=worst, diff=d), 0.0, d, sig=f"lf-history:{expm}")
+
+
 def _search_backends(out, ctx, rng, iters, refs):
     """failing-input search aimed at near-defective / badly scaled generators: the non-reversible nucleotide models with
     parameters on the corners and along the edges of the bounds box [1e-6, 1e6]"""
@@ -1476,6 +1531,7 @@ def _spec_one_model(out, ctx, rng, label, sm, reps, refs):
     if U.USER.get(label, {}).get("cls") == "solved":
         for _ in range(reps):
             _check_solved(out, label, sm, rng)
+        _check_history(out, label, sm, rng, (None,))
         return
     reversible = isinstance(sm, sub.TimeReversible) or (isinstance(sm, sub.Empirical) and bool(sm.symmetric))
     stationary = isinstance(sm, (sub.Stationary, sub.Empirical)) or label == "user:GeneralStationary"
@@ -1494,6 +1550,7 @@ def _spec_one_model(out, ctx, rng, label, sm, reps, refs):
             _check_P(out, ctx, label, sm, Q, wp, (s, t), inp, reversible, stationary, refs)
         if n <= 25 and r == 0:
             _check_lf_psubs(out, label, sm, rng, info)
+            _check_history(out, label, sm, rng, ("pade", "either"))
         if r == 0:
             _check_nodes(out, label, sm, lf, inp, stationary, "homogeneous")
             if n <= 25:
